@@ -1,16 +1,36 @@
 package checks
 
-import "fmt"
+import (
+	"fmt"
+	"os"
+	"strings"
+
+	"verif/internal/ev"
+)
 
 func Debug17() {
-	c := c07Case{v: make([]int, len(c07Factors)), contents: "one-pod"}
-	env := buildDisrupt(c.world())
-	cmds, err := env.round("SingleNodeConsolidation")
-	fmt.Println(cmdStrings(cmds), err)
-	for _, e := range env.W.Rec.Events {
-		fmt.Println("  event:", e.Reason, e.Message)
+	seen := map[string]string{}
+	c03Debug = func(sc string, choices []int, trace []string) {
+		k := sc + fmt.Sprint(choices)
+		t := strings.Join(trace, " | ")
+		if old, ok := seen[k]; ok && old != t {
+			fmt.Println("DIVERGENCE", k)
+			fmt.Println("  A:", old)
+			fmt.Println("  B:", t)
+			os.Exit(1)
+		}
+		seen[k] = t
 	}
-	for _, cl := range env.W.Client.Log {
-		fmt.Println("   ", cl.String())
+	for i := 0; i < 5; i++ {
+		r := ev.New("C03dbg", "quick", "model_checking")
+		func() {
+			defer func() {
+				if p := recover(); p != nil {
+					fmt.Println("panic:", p)
+				}
+			}()
+			c03Protocol(r)
+		}()
+		fmt.Println("pass", i, len(seen))
 	}
 }
